@@ -21,7 +21,7 @@ def run(tier):
         'split over lines, two clauses on a line, a second problem line): the result equals the strict reader\'s, or ValueError exactly '
         'when the strict reader rejects; no other exception type.')
     run.bounds = ['round trip: 43 x 6 clause pairs x m<=2; 5 shapes x 11 descriptions x 5 label formats', 'reader: every placement of blank / newline separators between the 9 tokens of a 3-clause body (2^8 placements, narrow and wide); round trips of formulas with 0..4097 clauses around the 256/1024/2048/4096 boundaries', 'reader: 20-line menu, <=%d lines, with/without final newline' % (3 if tier == 'quick' else 4)]
-    run.bounds += ['two texts read one after the other in one process (8 failing/valid first texts x 3-line menu texts)', 'encode - extend - encode again: 12 formulas x 12x12 ways of growing (clauses, variables, groups, constraints, and constraints that raise the variable count without a clause) x 3 label formats, to_dimacs() and to_file(), strict parse and read back', 'files given by NAME through a byte-level in-memory open(): 4 formulas x 6 label formats (non-ASCII) x varnames x header, dimacs/opb/latex writers and the dimacs reader']
+    run.bounds += ['two texts read one after the other in one process (8 failing/valid first texts x 3-line menu texts)', 'encode - extend - encode again: 12 formulas x 12x12 ways of growing (clauses, variables, groups, constraints, and constraints that raise the variable count without a clause), label format derived from the indices, to_dimacs() and to_file(), strict parse and read back', 'files given by NAME through a byte-level in-memory open(): 4 formulas x 6 label formats (non-ASCII) x varnames x header, dimacs/opb/latex writers and the dimacs reader']
     run.outside = ['texts outside the menu (symbolic strings are bug-hunting only with this tool)', 'tokens that Python int() accepts beyond plain decimal (+1, 1_0, unicode digits)', 'file-system failures']
     run.assumptions = ['the strict reader is the meaning of "the clauses written in the text"', 'CrossHair exhaustiveness accounting over the finite menus']
     T = 300 if tier == 'quick' else 1500
